@@ -221,7 +221,7 @@ class FailingSink(io.StringIO):
 SCRIPT = ["connect", "handshake", "enableBLOB", "client-write", "device-traffic"]
 
 
-def run(transport, fault, victim, step, paused=False, second=None, paused_survivor=None, stalled=None):
+def run(transport, fault, victim, step, paused=False, second=None, paused_survivor=None, stalled=None, explicit_never=False):
     """second = (fault2, victim2, step2): another TCP connection ends too; paused: the victim's flow control is
     paused from the start, so device traffic for it is queued behind a pending drain when it ends"""
     from indi.device.values import BLOB
@@ -298,6 +298,8 @@ def run(transport, fault, victim, step, paused=False, second=None, paused_surviv
         maybe(1)
         for c in conns:
             pol = POLICY.get(c["idx"], "Also" if c["idx"] == "tty" else None)
+            if explicit_never and pol is None:
+                pol = "Never"  # asked for explicitly (as the control connection of the library's own client does)
             if pol:
                 s.send(c, "<enableBLOB device=\"DEV0\">%s</enableBLOB>" % pol)
                 c["policy"] = pol
@@ -450,6 +452,7 @@ def run_shard(shard):
             cases.append(dict(victim=victim, step=step))
             if transport == "tcp":
                 cases.append(dict(victim=victim, step=step, paused=True))
+            cases.append(dict(victim=victim, step=step, explicit_never=True))
             if transport == "tty":
                 cases.append(dict(victim=victim, step=step, stalled="hold"))
                 cases.append(dict(victim=victim, step=step, stalled="fail"))
@@ -464,12 +467,15 @@ def run_shard(shard):
                         continue
                     for step2 in (range(step, 5) if tier == "thorough" else (step, 4)):
                         cases.append(dict(victim=victim, step=step, second=(f2, v2, step2)))
+                        if 2 in (victim, v2) and transport == "tcp":
+                            # ... with the unset connection having asked for Never explicitly: a single listener is left
+                            cases.append(dict(victim=victim, step=step, second=(f2, v2, step2), explicit_never=True))
     for c in cases:
         fails, injected = run(transport, fault, **c)
         res["evaluations"] += 1
         res["injected"] += 1 if injected else 0
         for clause, disc, what in fails:
-            extra = (",paused" if c.get("paused") else "") + (",second=%s" % c["second"][0] if c.get("second") else "") + (",slow-survivor" if c.get("paused_survivor") is not None else "") + (",stalled-output" if c.get("stalled") else "")
+            extra = (",paused" if c.get("paused") else "") + (",second=%s" % c["second"][0] if c.get("second") else "") + (",slow-survivor" if c.get("paused_survivor") is not None else "") + (",stalled-output" if c.get("stalled") else "") + (",explicit-never" if c.get("explicit_never") else "")
             key = (clause, disc + extra)
             if key in sig:
                 sig[key]["count"] += 1
@@ -496,6 +502,6 @@ def finish(tier, seed, m):
 
 def replay(rep):
     second = tuple(rep["second"]) if rep.get("second") else None
-    fails, inj = run(rep["transport"], rep["fault"], rep["victim"], rep["step"], rep.get("paused", False), second, rep.get("paused_survivor"), rep.get("stalled"))
-    extra = (",paused" if rep.get("paused") else "") + (",second=%s" % second[0] if second else "") + (",slow-survivor" if rep.get("paused_survivor") is not None else "") + (",stalled-output" if rep.get("stalled") else "")
+    fails, inj = run(rep["transport"], rep["fault"], rep["victim"], rep["step"], rep.get("paused", False), second, rep.get("paused_survivor"), rep.get("stalled"), rep.get("explicit_never", False))
+    extra = (",paused" if rep.get("paused") else "") + (",second=%s" % second[0] if second else "") + (",slow-survivor" if rep.get("paused_survivor") is not None else "") + (",stalled-output" if rep.get("stalled") else "") + (",explicit-never" if rep.get("explicit_never") else "")
     return [{"clause": c, "disc": d + extra, "what": w} for c, d, w in fails]
